@@ -47,7 +47,7 @@ THEOREMS = [
 ]
 # Which behaviour the oracle models: 0 = the pinned /repo; bit 0 = proposed_fixes/C17-F17ab.patch applied,
 # bit 1 = proposed_fixes/C17-F17c.patch applied.  One edit when the lead applies a fix (or VERIF_C17_VARIANT).
-VARIANT = 0
+VARIANT = 2  # F17c fixed in /repo (499276761)
 OVERLAY = {"server/zz_verif_c17_test.go": "server/zz_verif_c17_test.go"}
 
 
